@@ -897,6 +897,8 @@ def value_attr(I, obj, name):
             return Builtin(name, lambda *sh: e)
         if name == "shape":
             return ()
+        if name == "tobytes":
+            return Builtin(name, lambda *a: "<bytes of %s>" % sp.srepr(e))      # equal values give equal bytes
         if name == "size":
             return sp.Integer(1)          # a 0-d array / numpy scalar
         if name == "ndim":
@@ -960,7 +962,26 @@ def value_attr(I, obj, name):
         if name == "clear":
             return Builtin("clear", lambda: obj.clear())
         if name == "popitem":
-            return Builtin("popitem", lambda: obj.popitem())
+            def popitem(last=True):
+                if not obj:
+                    raise SymRaise("KeyError", "dictionary is empty")
+                k_ = list(obj)[-1 if last else 0]
+                return (k_, obj.pop(k_))
+            return Builtin("popitem", popitem)
+        if name == "move_to_end":          # collections.OrderedDict
+            def move_to_end(k, last=True):
+                kk = dict_key(I, obj, k)
+                if kk not in obj:
+                    raise SymRaise("KeyError", str(k))
+                v_ = obj.pop(kk)
+                if last:
+                    obj[kk] = v_
+                else:
+                    rest_ = list(obj.items())
+                    obj.clear()
+                    obj[kk] = v_
+                    obj.update(rest_)
+            return Builtin("move_to_end", move_to_end)
         if name == "fromkeys":
             return Builtin("fromkeys", lambda ks, v=None: {_key(k): v for k in iterate(I, ks)})
     if isinstance(obj, DequeVal):
@@ -1200,6 +1221,8 @@ def value_attr(I, obj, name):
             return sp.Integer(len(_vflat(obj)))
         if name == "ndim":
             return sp.Integer(len(_vshape(obj)))
+        if name == "tobytes":
+            return Builtin(name, lambda *a: "<bytes of %s>" % "|".join(sp.srepr(to_expr(x_)) if _alg(x_) else repr(x_) for x_ in _vflat(obj)))
         if name == "item":
             def item(*a):
                 fl_ = _vflat(obj)
